@@ -139,3 +139,73 @@ Proof. vm_compute. reflexivity. Qed.
 Example demo_inverted_interval :
   ids (o_overlap_iter (cfg_none false) [[R_ 0 84 78 49 5 3]]) = [[[-99]]].
 Proof. vm_compute. reflexivity. Qed.
+
+(* ======================================================================== *)
+(* the out-of-order report, in full (proofs/OverlapReport.v)                 *)
+From MafVerif Require Import proofs.OverlapStreamFacts proofs.OverlapReport.
+
+(* the part of an input before its first descent *)
+Definition sorted_prefix (c : cfg) : list orec -> list orec := sprefix ccls_cmp (okeyK c).
+
+Theorem C11_sorted_prefix_ends_at_the_first_descent :
+  forall (c : cfg) xs,
+    exists tail, xs = sorted_prefix c xs ++ tail /\
+                 sorted_input (ocls c) rstart rend class_before (sorted_prefix c xs) /\
+                 (tail = [] \/
+                  exists bad more last, tail = bad :: more /\ last_opt (sorted_prefix c xs) = Some last /\
+                                        key_before (ocls c) rstart rend class_before bad last).
+Proof. intros c. exact (sprefix_spec rtruthy ccls_cmp ccls_eqb (okey c) ccls_order (okeyK c)). Qed.
+Print Assumptions C11_sorted_prefix_ends_at_the_first_descent.
+
+(* Some input is NOT sorted (records truthy, contigs known, start <= end):
+   - list(LocatableOverlapIterator(...)) ends with the report, Exception
+     (never Done, never fuel exhaustion);
+   - the history is: construction succeeds, then the calls of next() return the
+     groups gs1, then one call raises the report;
+   - gs1 is an initial segment of the EXACT grouping gs_t of the sorted
+     prefixes of the inputs: every group emitted before the report is a correct,
+     complete overlap-chain class of records that precede every descent, so no
+     descending record is ever put into a group (the report comes no later than
+     the next() that would have emitted it) and nothing is mis-grouped. *)
+Theorem C11_unsorted_input_is_reported_and_nothing_is_misgrouped :
+  forall (c : cfg) (xss : list (list orec)),
+    truthy_records xss -> contigs_cover c xss -> proper_intervals xss -> ~ inputs_sorted c xss ->
+    exists gs_t gs1 gs2 is0 is_a is',
+      exact_grouping (ocls c) rstart rend class_before (map (sorted_prefix c) xss) gs_t /\
+      gs_t = gs1 ++ gs2 /\
+      o_init c xss = Ok is0 /\
+      run_ok rtruthy ccls_cmp ccls_eqb (okey c) is0 gs1 is_a /\
+      o_next_group c is_a = (is', Exc PlainException) /\
+      o_overlap_iter c xss = Exc PlainException.
+Proof.
+  intros c xss Ht Hc Hw Hns.
+  exact (unsorted_reported rtruthy ccls_cmp ccls_eqb (okey c) ccls_order (okey_no_stop c) (okeyK c) xss
+           Ht (fun r H => okey_K c r (Hc r H)) Hw Hns).
+Qed.
+Print Assumptions C11_unsorted_input_is_reported_and_nothing_is_misgrouped.
+
+(* non-vacuity: second input fine, first input [1,2] [8,9] [4,5]: the first
+   call returns the group {[1,2],[2,3]}, the second call (which would absorb
+   [8,9] and has to pull [4,5]) raises; the sorted prefixes are [1,2] [8,9] and
+   [2,3], whose exact grouping is {[1,2],[2,3]}, {[8,9]} *)
+Definition demo3 : list (list orec) :=
+  [[R_ 0 84 78 49 1 2; R_ 1 84 78 49 8 9; R_ 2 84 78 49 4 5]; [R_ 3 84 78 49 2 3]].
+Example demo3_report :
+  ids (o_overlap_iter (cfg_none false) demo3) = [[[-9]]] /\
+  map (map rid) (map (sorted_prefix (cfg_none false)) demo3) = [[0; 1]; [3]] /\
+  ids (o_overlap_iter (cfg_none false) (map (sorted_prefix (cfg_none false)) demo3)) = [[[0]; [3]]; [[1]; []]] /\
+  match o_init (cfg_none false) demo3 with
+  | Ok i0 =>
+    let '(i1, o1) := o_next_group (cfg_none false) i0 in
+    let '(i2, o2) := o_next_group (cfg_none false) i1 in
+    (match o1 with Done g => map (map rid) g | _ => [] end,
+     match o2 with Exc PlainException => true | _ => false end)
+  | Raise _ => ([], false)
+  end = ([[0]; [3]], true).
+Proof. vm_compute. repeat split. Qed.
+Example demo3_not_sorted : ~ inputs_sorted (cfg_none false) demo3.
+Proof.
+  intros H. inversion H as [|? ? H1 _]; subst. simpl in H1.
+  destruct H1 as (_ & [[Hc|(_ & [Hlt|(Heq & _)])]|(_ & Heq & _)] & _); simpl in *; try lia.
+  vm_compute in Hc. discriminate.
+Qed.
